@@ -34,7 +34,7 @@ class Contract:
 
     def __init__(self, requires=None, ensures=None, loops=None, hints=None, ret="r",
                  decreases=None, props=None, attrs=None, canary=True, opens=None,
-                 safety_props=None, body_prelude=None):
+                 safety_props=None, body_prelude=None, optional_loops=None):
         self.requires = _clauses(requires)
         self.ensures = _clauses(ensures)
         # loops: {ordinal(1-based): dict(invariant=[clauses], decreases=str, attrs=[str], ensures=[clauses])}
@@ -49,6 +49,9 @@ class Contract:
         # ghost/proof text inserted right after the body's opening brace (and, per loop,
         # loops[k]["body_prelude"] right after the loop body's opening brace)
         self.body_prelude = body_prelude
+        # spec template for every loop that has no entry in `loops` and is an index loop produced
+        # by a rewrite rule: `{I}` is replaced by that loop's index variable (`__iN`)
+        self.optional_loops = optional_loops
         # properties the function's panic-freedom obligations belong to (default: props)
         self.safety_props = set(safety_props) if safety_props is not None else None
 
@@ -268,7 +271,14 @@ class UnitFile:
                 # `for` inside `impl ... for`/HRTB never occurs in bodies we extract
                 ordinal += 1
                 if ordinal not in c.loops:
-                    continue
+                    iv = None
+                    if c.optional_loops and t.text == "while" and k + 1 < len(toks) and re.fullmatch(r"__i\d+", toks[k + 1].text or ""):
+                        iv = toks[k + 1].text
+                    if iv is None:
+                        continue
+                    spec = {kk: ([(nn, tt.replace("{I}", iv)) + tuple(rest) for (nn, tt, *rest) in vv] if isinstance(vv, list) else vv.replace("{I}", iv))
+                            for kk, vv in c.optional_loops.items()}
+                    c.loops[ordinal] = spec
                 spec = c.loops[ordinal]
                 # loop body `{`: first `{` at depth 0 after the keyword
                 depth = 0
@@ -306,6 +316,25 @@ class UnitFile:
                 if spec.get("body_prelude"):
                     self._inserts.append([("        " + x, None) for x in spec["body_prelude"].strip().split("\n")])
                     edits.append((toks[j].end, len(self._inserts) - 1, "stmt"))
+                if spec.get("pre"):
+                    a0 = k
+                    if k >= 2 and toks[k - 1].text == ":" and toks[k - 2].kind == "lifetime":
+                        a0 = k - 2
+                    # an index loop produced by a rewrite rule starts at its `let mut __iN` statement
+                    b0 = a0
+                    while b0 >= 4 and not (toks[b0 - 1].text == ";" ):
+                        b0 -= 1
+                    if b0 + 2 < len(toks) and toks[b0].text == "let" and toks[b0 + 1].text == "mut" and re.fullmatch(r"__i\d+", toks[b0 + 2].text):
+                        pass
+                    # find the `let mut __iN` that precedes the while (same line by construction)
+                    j0 = a0
+                    while j0 > 0 and not (toks[j0].text == "let" and toks[j0 + 1].text == "mut" and re.fullmatch(r"__i\d+", toks[j0 + 2].text or "")):
+                        j0 -= 1
+                        if a0 - j0 > 12:
+                            j0 = a0
+                            break
+                    self._inserts.append([("        " + x, None) for x in spec["pre"].strip().split("\n")])
+                    edits.append((toks[j0].start, len(self._inserts) - 1, "stmt"))
                 if spec.get("attrs"):
                     # attributes go before the loop keyword (or its label)
                     a = k
